@@ -228,6 +228,8 @@ class Host(object):
         m = self.model.get(path)
         if m is None:
             return None, None
+        if data is None:
+            raise RD.DiskError("the file is gone")
         if m["kind"] == "cas":
             return "cas", RT.read(data, strict=False)
         if m["kind"] == "dsk":
